@@ -101,7 +101,7 @@ def run_c12(ctx):
     scripts = []
     for (name, cont, fn, pick, a, b) in jobs:
         scripts += [(name + "/late", "\n".join(a) + "\n"), (name + "/plain", "\n".join(b) + "\n")]
-    out = ctx.batch(scripts, clean=True)
+    out = ctx.batch(scripts)
     judge = abslean.Judge(ctx)
     geom = lambda fn: abslean.geom_line(1, 0, "w", bw=2, strict=True, lossless=[] if fn[0] == "raw" else ["s16"])
     # the audio is 16-bit throughout: whatever entry point wrote it, the re-opened file must deliver the pattern to sf_read_short.
@@ -167,5 +167,5 @@ def run_c12(ctx):
             found = True
             ctx.violation("c12-%s" % name.replace("/", "_"),
                           "# C12 violated: a metadata item set too late (after audio written with %s) is not harmless\n# container %s, late kinds %s\n# at script line %d: %s\n# %s\n--- script\n%s"
-                          % ("sf_write_raw" if fn[0] == "raw" else "sf_write%s_%s" % ("f" if fn[1] == "f" else "", fn[0]), cont, ",".join(pick), prob[0], a[prob[0]][:100] if prob[0] < len(a) else "", prob[1], "\n".join(a) + "\n"))
+                          % ("sf_write_raw" if fn[0] == "raw" else "sf_write%s_%s" % ("f" if fn[1] == "f" else "", {"s16": "short", "s32": "int", "f32": "float", "f64": "double"}[fn[0]]), cont, ",".join(pick), prob[0], a[prob[0]][:100] if prob[0] < len(a) else "", prob[1], "\n".join(a) + "\n"))
     return found
